@@ -3,6 +3,7 @@ package main
 import (
 	"regexp"
 	"regexp/syntax"
+	"strconv"
 	"unicode"
 )
 
@@ -271,10 +272,67 @@ func init() {
 		if s.Concrete() && r.Concrete() {
 			return Str{s: re.ReplaceAllString(s.s, r.s)}
 		}
-		if !r.Concrete() || hasDollar(r.s) {
+		if !r.Concrete() {
 			e.cut("unsupported-symbolic:regexp replacement template")
 		}
-		return replaceAll(e, re, s, func(Str, []int) Str { return r })
+		if !hasDollar(r.s) {
+			return replaceAll(e, re, s, func(Str, []int) Str { return r })
+		}
+		// template with $N / ${N} group references (numeric groups only)
+		type part struct {
+			lit string
+			grp int
+		}
+		var parts []part
+		t := r.s
+		for i := 0; i < len(t); {
+			if t[i] != '$' {
+				j := i
+				for j < len(t) && t[j] != '$' {
+					j++
+				}
+				parts = append(parts, part{lit: t[i:j], grp: -1})
+				i = j
+				continue
+			}
+			i++
+			if i < len(t) && t[i] == '$' {
+				parts = append(parts, part{lit: "$", grp: -1})
+				i++
+				continue
+			}
+			brace := i < len(t) && t[i] == '{'
+			if brace {
+				i++
+			}
+			j := i
+			for j < len(t) && (t[j] >= '0' && t[j] <= '9' || t[j] == '_' || t[j] >= 'a' && t[j] <= 'z' || t[j] >= 'A' && t[j] <= 'Z') {
+				j++
+			}
+			n, err := strconv.Atoi(t[i:j])
+			if err != nil || j == i {
+				e.cut("unsupported-symbolic:regexp replacement template with named group")
+			}
+			if brace {
+				if j >= len(t) || t[j] != '}' {
+					e.cut("unsupported-symbolic:regexp replacement template")
+				}
+				j++
+			}
+			parts = append(parts, part{grp: n})
+			i = j
+		}
+		return replaceAll(e, re, s, func(m Str, caps []int) Str {
+			out := Str{}
+			for _, p := range parts {
+				if p.grp < 0 {
+					out = concat(out, Str{s: p.lit})
+				} else if 2*p.grp+1 < len(caps) && caps[2*p.grp] >= 0 {
+					out = concat(out, s.Sub(caps[2*p.grp], caps[2*p.grp+1]))
+				}
+			}
+			return out
+		})
 	}
 	intrinsics["(*regexp.Regexp).ReplaceAllStringFunc"] = func(e *Exec, a []Value) Value {
 		re := nativeRegexp(a[0])
